@@ -269,6 +269,16 @@ bool Interp::exec_coll(Interp &I, const Stmt &s)
         });
         return true;
     }
+    if (s.op == "getitem")
+    {
+        // getitem <tsd port> <key int ts>: stdlib tsd[key] - a reference to the element under the CURRENT key (re-pointed when the
+        // key ticks to another key, emptied when the key is absent / removed, re-bound when the key comes back)
+        PortVal d = I.get(a.at(0));
+        if (d.shape != "tsd") throw std::runtime_error("getitem needs a tsd port");
+        auto out = wire<stdlib::getitem_>(w, Port<S_TSD>{w, d.ref}, I.pi(a.at(1)));
+        I.env[s.dst] = PortVal{out.template as<TS<Int>>().erased(), PT::Int, "ts"};
+        return true;
+    }
     if (s.op == "crecord" && !s.kwi("sparse", 0))
     {
         PortVal v = I.get(a.at(0));
